@@ -176,7 +176,7 @@ func cloneLoad(f *bloom.Filter) *msg.FilterLoad {
 type stats struct {
 	cases, proofs, branches, hashFlips, flagFlips, countMuts int64
 	flagFlipAccepted, countMutAccepted, mutPanics            int64
-	falsePositives, matchAll, matchNone                      int64
+	falsePositives, matchAll, matchNone, dupTails            int64
 }
 
 type env struct {
@@ -188,7 +188,8 @@ type env struct {
 	shapes  evid.Distinct // distinct (n, realised pattern)
 	encs    evid.Distinct // distinct (n, flags, #hashes) encodings
 	samples evid.Samples
-	flips   bool
+	pend    []pending // violations of this case, reported by the parent in job order (deterministic first artefact)
+	flips   int       // 0 none, 1 one bit of every hash byte + all flag bits, 2 every bit
 }
 
 func u256s(hs []*common.Uint256) [][32]byte {
@@ -223,12 +224,17 @@ func guarded(f func()) (site string, panicked bool) {
 	return
 }
 
+type pending struct {
+	sig, what string
+	art       map[string]interface{}
+}
+
 func (e *env) violate(sig, what string, c caseT, extra map[string]interface{}) {
 	a := map[string]interface{}{"n": c.N, "pattern": c.Pattern, "filter": c.F}
 	for k, v := range extra {
 		a[k] = v
 	}
-	e.r.Violate(sig, what+" ["+c.String()+"]", a)
+	e.pend = append(e.pend, pending{sig, what + " [" + c.String() + "]", a})
 }
 
 func (e *env) runCase(c caseT) {
@@ -377,7 +383,7 @@ func (e *env) runCase(c caseT) {
 
 	e.samples.Add(map[string]interface{}{"n": n, "intended": fmt.Sprintf("%b", intended), "realised": fmt.Sprintf("%b", realised), "filter": c.F, "flags": fmt.Sprintf("%x", mb.Flags), "hashes": len(mb.Hashes)})
 
-	if !e.flips {
+	if e.flips == 0 {
 		return
 	}
 	// corruptions. A light client that accepts must only ever have been given ids of this block.
@@ -418,6 +424,9 @@ func (e *env) runCase(c caseT) {
 		x := *mb.Hashes[hi]
 		hs[hi] = &x
 		for bit := 0; bit < 256; bit++ {
+			if e.flips == 1 && bit%8 != (bit/8+hi)%8 {
+				continue
+			}
 			x[bit/8] ^= 1 << uint(bit%8)
 			e.st.hashFlips++
 			check("hash-bit", msg.MerkleBlock{Header: mb.Header, Transactions: mb.Transactions, Hashes: hs, Flags: mb.Flags}, true, hi, bit)
@@ -438,6 +447,67 @@ func (e *env) runCase(c caseT) {
 		atomic.AddInt64(&e.st.countMuts, 1)
 		check("tx-count", msg.MerkleBlock{Header: mb.Header, Transactions: t, Hashes: mb.Hashes, Flags: mb.Flags}, false, 0, int(t))
 	}
+}
+
+// dupTail presents, for a block whose tree has an odd width at level k, the CVE-2012-2459 twin:
+// the same merkle root claimed for n+2^k transactions whose tail repeats the last 2^k ids, with
+// the repeated leaves flagged as matches. A sound verifier must not accept it (it would report
+// the same transaction twice / a transaction count the block does not have).
+func (e *env) dupTail(n int) {
+	ids := e.ids[:n]
+	root := blockkit.RefMerkleRoot(ids)
+	for k := uint32(0); 1<<k <= n; k++ {
+		w := width(uint32(n), k)
+		if w%2 == 0 || w == 1 || n%(1<<k) != 0 {
+			continue
+		}
+		twin := append(append([][32]byte{}, ids...), ids[n-(1<<k):]...)
+		if blockkit.RefMerkleRoot(twin) != root {
+			evid.Fatalf("dupTail: twin root differs (n=%d k=%d)", n, k)
+		}
+		match := make([]bool, len(twin))
+		for i := n - (1 << k); i < len(twin); i++ {
+			match[i] = true
+		}
+		bits, hashes := refBuild(twin, match)
+		flags := make([]byte, (len(bits)+7)/8)
+		for i, b := range bits {
+			if b {
+				flags[i/8] |= 1 << uint(i%8)
+			}
+		}
+		hs := make([]*common.Uint256, len(hashes))
+		for i := range hashes {
+			u := common.Uint256(hashes[i])
+			hs[i] = &u
+		}
+		hdr := &ctypes.Header{MerkleRoot: common.Uint256(root)}
+		c := caseT{N: n, Pattern: uint64(k), F: filterCfg{Kind: "dup-tail"}}
+		for _, v := range []string{"bloom", "filter"} {
+			m := msg.MerkleBlock{Header: hdr, Transactions: uint32(len(twin)), Hashes: hs, Flags: flags}
+			var got []*common.Uint256
+			var err error
+			_, p := guarded(func() {
+				if v == "bloom" {
+					got, err = bloom.CheckMerkleBlock(m)
+				} else {
+					got, err = filter.CheckMerkleBlock(m)
+				}
+			})
+			atomic.AddInt64(&e.st.dupTails, 1)
+			if p || err != nil {
+				continue
+			}
+			e.violate("C08|dup-tail-accepted|"+v+".CheckMerkleBlock", fmt.Sprintf("a merkle block claiming %d transactions with the last %d ids repeated verifies against the root of the %d-transaction block and reports %d ids", len(twin), 1<<k, n, len(got)), c, nil)
+		}
+	}
+}
+
+func (e *env) flush() {
+	for _, p := range e.pend {
+		e.r.Violate(p.sig, p.what, p.art)
+	}
+	e.pend = nil
 }
 
 // patterns of weight <= 2, all prefixes and suffixes, alternating patterns.
@@ -471,7 +541,7 @@ func main() {
 
 	maxN := r.Pick(17, 33)
 	allUpTo := r.Pick(12, 16)
-	flipAllUpTo := r.Pick(12, 13) // every bit of every hash for all patterns up to this n; sparse patterns beyond
+	flipAllUpTo := r.Pick(9, 13) // every bit of every hash for all patterns up to this n; beyond: one bit of every hash byte for all patterns, every bit for the sparse patterns
 	e := &env{r: r, idIndex: map[[32]byte]int{}}
 	e.samples.N = 8
 	for i := 0; i < maxN; i++ {
@@ -489,8 +559,13 @@ func main() {
 		if c.N < 1 || c.N > maxN {
 			evid.Fatalf("replay: n out of range")
 		}
-		e.flips = true
-		e.runCase(c)
+		e.flips = 2
+		if c.F.Kind == "dup-tail" {
+			e.dupTail(c.N)
+		} else {
+			e.runCase(c)
+		}
+		e.flush()
 		os.RemoveAll(scr)
 		r.Finish(evid.Coverage{})
 	}
@@ -510,28 +585,37 @@ func main() {
 
 	type job struct {
 		c     caseT
-		flips bool
+		flips int
 	}
 	var jobs []job
 	for n := 1; n <= maxN; n++ {
 		if n <= allUpTo {
 			for p := uint64(0); p < 1<<uint(n); p++ {
-				jobs = append(jobs, job{caseT{n, p, exact}, n <= flipAllUpTo})
+				fm := 1
+				if n <= flipAllUpTo {
+					fm = 2
+				}
+				jobs = append(jobs, job{caseT{n, p, exact}, fm})
 			}
 		}
 		sp := sparsePatterns(n)
 		for _, p := range sp {
-			if n > allUpTo {
-				jobs = append(jobs, job{caseT{n, p, exact}, true})
+			if n > flipAllUpTo {
+				jobs = append(jobs, job{caseT{n, p, exact}, 2})
 			}
 			for _, f := range menu {
-				jobs = append(jobs, job{caseT{n, p, f}, n <= 9})
+				fm := 0
+				if n <= 9 {
+					fm = 2
+				}
+				jobs = append(jobs, job{caseT{n, p, f}, fm})
 			}
 		}
 	}
 
 	var done int64
 	var skipped int64
+	pends := make([][]pending, len(jobs))
 	par.Go(len(jobs), func(i int) {
 		if r.Expired() {
 			atomic.AddInt64(&skipped, 1)
@@ -541,6 +625,7 @@ func main() {
 		w := &env{r: r, txs: e.txs, ids: e.ids, idIndex: e.idIndex, flips: j.flips}
 		w.samples.N = 0
 		w.runCase(j.c)
+		pends[i] = w.pend
 		// merge
 		atomic.AddInt64(&e.st.cases, w.st.cases)
 		atomic.AddInt64(&e.st.proofs, w.st.proofs)
@@ -559,15 +644,26 @@ func main() {
 		atomic.AddInt64(&done, 1)
 	})
 
+	for _, ps := range pends {
+		for _, p := range ps {
+			r.Violate(p.sig, p.what, p.art)
+		}
+	}
+	for n := 1; n <= maxN; n++ {
+		e.dupTail(n)
+	}
+	e.flush()
+
 	// samples: deterministic, from a fixed list of cases (not from scheduling order)
 	e.samples.N = 8
-	e.flips = false
+	e.flips = 0
 	for _, c := range []caseT{{1, 1, exact}, {3, 0b100, exact}, {5, 0b10001, exact}, {7, 0b1000000, menu[1]}, {12, 0b101010101010, exact}, {13, 1 << 12, menu[5]}, {17, 1<<16 | 1, exact}, {9, 0b1, menu[7]}} {
 		if c.N <= maxN {
 			e.runCase(c)
 		}
 	}
 
+	e.flush()
 	st := &e.st
 	r.Assume = append(r.Assume,
 		"flag bits are not committed by the merkle root (BIP37): a flipped leaf flag or a changed transaction count may still verify; the oracle for those corruptions is that every id returned by an accepting verification is a transaction of the block, in block order; flipped hash bits must always fail",
@@ -576,9 +672,9 @@ func main() {
 		"trailing unused hashes/flag bytes appended to a merkle block are not a single-bit corruption and are not enumerated")
 	os.RemoveAll(scr)
 	r.Finish(evid.Coverage{
-		"evaluations":                          st.proofs + st.branches + st.hashFlips + st.flagFlips + st.countMuts,
+		"evaluations":                          st.proofs + st.branches + st.hashFlips + st.flagFlips + st.countMuts + st.dupTails,
 		"distinct_nontrivial":                  e.shapes.Len(),
-		"rule":                                 fmt.Sprintf("tx counts n=1..%d; all 2^n match patterns for n<=%d, patterns of weight<=2/prefixes/suffixes/all-but-one/alternating for every n, each realised through a real bloom filter (exact filter + %d-entry menu of (elements,fprate,tweak,added datum)); every served merkle block: canonical BIP37 encoding, reference extractor, CheckMerkleBlock, GetTxMerkleBranch+GetMerkleRoot per matched tx, then every single-bit flip of every hash and flag byte and 7 transaction-count changes. distinct_nontrivial = distinct (n, realised match pattern) pairs", maxN, allUpTo, len(menu)),
+		"rule":                                 fmt.Sprintf("tx counts n=1..%d; all 2^n match patterns for n<=%d, patterns of weight<=2/prefixes/suffixes/all-but-one/alternating for every n, each realised through a real bloom filter (exact filter + %d-entry menu of (elements,fprate,tweak,added datum)); every served merkle block: canonical BIP37 encoding, reference extractor, CheckMerkleBlock, GetTxMerkleBranch+GetMerkleRoot per matched tx, then corruptions: every flag bit and 7 transaction-count changes for every block; every bit of every hash for all patterns of n<=%d and for the sparse patterns of every n, one bit of every hash byte (rotating bit position) for the remaining patterns; plus the duplicated-tail twin (CVE-2012-2459 shape) of every n whose tree has an odd level. distinct_nontrivial = distinct (n, realised match pattern) pairs", maxN, allUpTo, len(menu), flipAllUpTo),
 		"exhaustive":                           skipped == 0,
 		"cases":                                st.cases,
 		"merkle_blocks":                        st.proofs,
@@ -586,6 +682,7 @@ func main() {
 		"hash_bit_flips":                       st.hashFlips,
 		"flag_bit_flips":                       st.flagFlips,
 		"tx_count_changes":                     st.countMuts,
+		"dup_tail_forgeries":                   st.dupTails,
 		"flag_flips_accepted_with_genuine_ids": st.flagFlipAccepted,
 		"count_changes_accepted_with_genuine_ids": st.countMutAccepted,
 		"corruptions_panicking":                   st.mutPanics,
